@@ -152,4 +152,25 @@ CLAIMS = {
           'finding (ISA_LOOP trees lack the GS_LOOP level). Trusted: TLC, the tree flattener in lib/c09.py.',
   'technique': 'TLA+ definition of the partition + replay of TLC-generated documents through X12ContextReader for every loop id + TLC trace validation',
  },
+ 'C16': {
+  'text': 'Every map file maps.xml names is exported independently of pyx12 (lib/c16_export.py) and judged by TLC (MapDef/MapWF): well-formedness of usages, limits, positions, sequence numbers and '
+          'syntax notes, defined data elements and code sets, distinguishability of same-position siblings, unambiguous index keys, and re-addressability of every node by a path resolved one component '
+          'per step. Every tree the real loader builds is compared node for node with the XML for both load routes (packaged resources and an explicit map directory with marker entries); each node\'s own '
+          'get_path() is fed to getnodebypath and getnodebypath2, and map_index.get_filename is asked every key and near-miss key; all recorded facts are trace-validated by TLC (T_MapModel).',
+  'note': 'Exhaustive over the shipped configuration (26 indexed files, 24k nodes, 3.3k index queries); thorough adds the five shipped maps the index does not name. Composite nodes are outside the '
+          'property; children order is demanded by position only; the ISA versions the reader accepts are not part of the property. 15 recorded findings (map data defects and the CTX/PWK path '
+          'conflations), 3 code defects repaired.',
+  'technique': 'Explicit TLA+ spec (MapDef, MapWF) evaluated by TLC over independently exported constants + TLC trace validation (T_MapModel) of the real loader, lookups and index',
+ },
+ 'C19': {
+  'text': 'Html.tla: definition layer (report as items seg/err/info, per-character Escape/Unescape, StripMarkup, completeness / adjacency / escaping predicates) and an implementation-shaped '
+          'transcription of err_handler, the err_iter cursor as x12n_document drives it, gen_seg and footer; TLC (HtmlGen) explores all tree-growth sequences within bounds (several sets, groups, '
+          'interchanges, 0..2 errors before/after a segment, errors on trailers, unclosed and mis-nested loops) and emits behaviours; they are realised as real documents under three delimiter triples '
+          'with values carrying < > & " \' and blanks, and - with fixtures, seeded fixture mutations, concatenated interchanges and markup-character delimiters - run through the real x12n_document; '
+          'the recorded error-handler calls, source segments and the HTML parsed back with html.parser are trace-validated by TLC (T_Html): every segment once, in order, with line number and values, '
+          'every claimed segment-/element-level error adjacent to its segment, no unescaped input, complete document, StripMarkup = source.',
+  'note': 'Claimed errors = seg_error/ele_error calls made while a segment is validated and stored in the tree; isa/gs/st-level errors and errors the handler dropped are recorded, not claimed. '
+          'Six recorded findings (cursor stuck after the first interchange / in an unclosed loop / on a closed set / on envelope lines, stale element node for too-many-elements). Trusted: TLC, lib/c19_run.py.',
+  'technique': 'TLA+ model checking (TLC) of the error-tree cursor and report model + realisation of emitted behaviours as documents + TLC trace validation of recorded runs (drift reported separately)',
+ },
 }
